@@ -110,6 +110,22 @@ CLAIMED.update({
         design="3/C02"),
 })
 
+CLAIMED.update({
+    "C06": dict(
+        engine="mir2smt",
+        technique="symbolic execution of the rustc MIR of Context::subtype_of / supertype_of / cheap_supertype_of (+ Type::eq, is_mono_value_class) into SMT; "
+                  "the discriminants of two or three Type operands are solver variables over all fieldless variants; z3 decides the preorder/tower laws; the encoding "
+                  "is validated against the real function on all concrete pairs and counterexamples are replayed natively",
+        category="other",
+        text="Kernel-level partial claim on the monomorphic fragment (the 21 fieldless variants of enum Type except the error placeholders): z3 shows for all pairs and "
+             "triples that the public subtype_of/supertype_of are decided by the fast table alone, and that the judgement is reflexive, transitive, antisymmetric, has Never "
+             "below and Obj above every type (strictly), and orders Bool <: Nat <: Int <: Ratio <: Float <: Complex with none of the converses and nothing else below a tower "
+             "class. T <: (T or U), (T and U) <: T, singleton/enum types below their class, and all structural/nominal judgement are not decided.",
+        note="Trusts rustc's MIR dump as the semantics of the source, engines/mir2smt.py (validated per run: the encoded judgement equals the real cheap_supertype_of on all 441 "
+             "concrete pairs, cargo test on the scratch copy), z3. Type::addr_eq is a free boolean that can be true only for equal discriminants; self: &Context is opaque.",
+        design="3/C06"),
+})
+
 NOT_APPLICABLE = {}
 
 
